@@ -1,5 +1,6 @@
 //! Laboratory equipment shared by the harness binaries. No dependency on Humphrey.
 
+pub mod alloc;
 pub mod args;
 pub mod httpref;
 pub mod json;
